@@ -54,7 +54,7 @@ struct Model {
 
 static Motion::Level levelOf(const string& s) { return s == "pos" ? Motion::Position : s == "vel" ? Motion::Velocity : Motion::Acceleration; }
 static const char* nameOf(Motion::Level l) { return l == Motion::Position ? "pos" : l == Motion::Velocity ? "vel" : l == Motion::Acceleration ? "acc" : "none"; }
-static string num(double x) { char b[40]; snprintf(b, sizeof b, "%.17g", x); return b; }
+static string num(double x) { if (x != x) return "NaN"; if (x > 1e308) return "Infinity"; if (x < -1e308) return "-Infinity"; char b[40]; snprintf(b, sizeof b, "%.17g", x); return b; }
 
 int main(int argc, char** argv) {
     if (argc < 3) return 2;
